@@ -98,7 +98,7 @@ PLANS = {
              300000, 8000000, {"cyclic_requests": 500000, "nested_cycle_requests": 100000, "ev_iterate": 50000}, cap=300000),
     "C13": S("case = seeded cyclic (program whose functions all use cycle_result, input-dependent call edges; history); every result vs "
              "the SCC oracle (fallback for members of cyclic SCCs, body value otherwise); non-trivial iff >=1 request of a cycle member" + DIST,
-             200000, 6000000, {"cyclic_requests": 500000, "nested_cycle_requests": 50000}),
+             200000, 6000000, {"cyclic_requests": 500000, "nested_cycle_requests": 50000}, cap=200000),
     "C14": S("case = seeded cyclic (program with cycles through functions without recovery, pure or mixed with fixpoint functions; "
              "history that breaks the cycles again); outcome class per request (cycle panic / least fixpoint / propagated panic), "
              "step bound, later results vs reference; non-trivial iff >=1 cycle panic" + DIST,
@@ -106,7 +106,7 @@ PLANS = {
     "C15": S("case = seeded cyclic (program with xor/and-not/add inside cycles, 12-bit values so they do not stabilise; history that "
              "switches them to convergent); iteration numbers <= 200, 'too many cycle iterations' panic, step bound, later results vs "
              "reference; non-trivial iff >=1 too-many-iterations panic" + DIST,
-             60000, 1500000, {"too_many_panics": 2000, "iterations": 500000}),
+             240000, 3000000, {"too_many_panics": 20000, "iterations": 2000000, "cyclic_requests_decided_after_divergence": 8000}, cap=240000),
 }
 ASSUME_CONC = [
     "programs are interpreter-shaped (generic tracked fns interpreting generated program data)",
